@@ -229,7 +229,7 @@ func TestC20(t *testing.T) { RunProperty(t, cfgC20) }
 var cfgC15 = reg(PropCfg{
 	ID: "C15",
 	Profile: &Profile{Weights: map[string]int{EntRaise: 12, EntDecide: 22, EntWL: 4, WrkReg: 6, WrkRec: 14, WrkPur: 3, BcnReg: 5, BcnRec: 12, BcnPur: 3, StrCreate: 8, StrClaim: 6, StrTopUp: 2, StrUpdate: 1, StrCancel: 2, BankSend: 3},
-		MinBlocks: 12, MaxBlocks: 45, MaxTxs: 5, MaxOps: 2, PUpper: 5, PActor: 3, PNamed: 1, PFault: 1, PExec: 4, PGovParams: 6, PBadRef: 2, ValidParams: true, TinyLimits: true, Vesting: true, LongTime: true},
+		MinBlocks: 12, MaxBlocks: 45, MaxTxs: 5, MaxOps: 2, PUpper: 5, PActor: 3, PNamed: 1, PFault: 1, PExec: 4, PGovParams: 6, PBadRef: 2, ValidParams: true, TinyLimits: true, Vesting: true, LongTime: true, SteerExport: true, PBulk: 3},
 	Rule: "round trip at an export point whose state holds >=1 raised/accepted order and >=1 funded stream and (>=1 pruned registration or >=1 account with spent eFUND), followed by a continuation on both chains",
 	PerCase: c15PerCase,
 	MinClasses: map[string]int{"c15.import-ok": 50, "c15.export-with-funded-stream": 20, "c15.export-with-order-in-flight": 20, "c15.continuation-tx": 200},
